@@ -31,10 +31,32 @@ def model_docs(ctx, tier):
     return out
 
 
+def inline_docs(tier):
+    """every string over small inline alphabets as a one-paragraph document (and inside a heading / list item / quote):
+    emphasis {a, space, *, _}, links {a, [, ], (, ), !}, code and escapes {a, `, \\, space}"""
+    import itertools
+    out = []
+    for alpha, nq, nt in (("a *_", 5, 7), ("a[]()!", 4, 6), ("a`\\ ", 4, 6), ("a*_[]`", 4, 5)):
+        for n in range(1, (nq if tier == "quick" else nt) + 1):
+            for tup in itertools.product(alpha, repeat=n):
+                s = "".join(tup)
+                if s.strip() and not s.startswith(" ") and not s.endswith(" "):
+                    out.append(s)
+    out = sorted(set(out))
+    docs = []
+    for k, s in enumerate(out):
+        docs.append(("", s + "\n"))
+        if tier == "thorough" or k % 9 == 0:
+            docs.append(("", "# " + s + "\n"))
+            docs.append(("", "- " + s + "\n> " + s + "\n"))
+            docs.append(("", "x " + s + "\ny " + s + " z\n"))
+    return docs
+
+
 def other_docs(tier, seed_):
     """fixed pools (generated, systematic) in a VERIF_SEED-chosen subset for quick, complete for thorough; repository documents"""
     n_gen, n_sys = (400, 400) if tier == "quick" else (docgen.POOL, docgen.SYS_POOL)
-    docs = docgen.documents(n_gen, seed_) + docgen.systematic(seed_, n_sys)
+    docs = inline_docs(tier) + docgen.documents(n_gen, seed_) + docgen.systematic(seed_, n_sys)
     paths = corpus.rule_docs() if tier == "thorough" else corpus.sample(corpus.rule_docs(), 150, seed_)
     for p in paths + (corpus.project_docs() if tier == "thorough" else corpus.sample(corpus.project_docs(), 15, seed_)):
         try:
